@@ -18,7 +18,7 @@ func checkC22(c *Ctx) (string, []string) {
 		"internal/accumulation.ParallelizedAccumulation · []internal/types.DeferredTransfer": "every consumer (SingleServiceAccumulation) filters by receiver and sorts by SenderID before use — checked by rule C22.transfer-order; a sender's own transfers stay contiguous and in emission order",
 		"internal/accumulation.ParallelizedAccumulation · internal/types.ServiceBlobs":       "only consumer Provide() inserts into per-service maps keyed by blob hash, skipping already-provided entries — idempotent and commutative",
 		"internal/accumulation.ParallelizedAccumulation · internal/types.StateKeyVals":       "intersection result is a key-unique pool looked up by key and serialised sorted by key (StateEncoder) — order never observed",
-		"PVM.C · internal/types.ServiceBlobs": "blobs of one invocation, consumed only through ParallelizedAccumulation→Provide (commutative, see above)",
+		"PVM.C · internal/types.ServiceBlobs":                                                "blobs of one invocation, consumed only through ParallelizedAccumulation→Provide (commutative, see above)",
 	}}
 	n := s.checkMapOrder([]string{accPkg}, nil)
 	n += s.checkMapOrder([]string{"PVM"}, func(f string) bool {
